@@ -29,6 +29,8 @@ Step(q) ==
   CASE q.k = "sym" -> [sym |-> SymTable]
     [] q.k = "grid" -> [grid |-> GeoGrid, meta |-> GeoMeta]
     [] q.k = "ptscen" -> [scen |-> PtScen]
+    [] q.k = "histplan" -> [plans |-> [m \in SpreadingModels |-> {[a |-> ab[1], b |-> ab[2], args |-> ArgsG(m, ab[1]), steps |-> HistPlan(ab[1], ab[2])] : ab \in HistPairs(m)}]]
+    [] q.k = "hist" -> HistStep(q)
     [] q.k = "geo" -> GeoStep(q)
     [] q.k = "pt" -> PtStep(q)
 
